@@ -41,6 +41,7 @@ PROP = dict(
                  "[-40,40]; linspace n=1..400; integer arange [-40,40]^3; dyadic fractional arange count<=64; long fractional arange also "
                  "count 10^6"),
     deadline=dict(quick=150, thorough=3000),
+    passes=[dict(name="main"), dict(name="asan", variant="asan", args=["--asan-pass"])],
     assumptions=COMMON_ASSUME + [
         "principal argument with atan2 conventions; a negative zero is also accepted as a plain zero: angle(0) in {0, atan2(im,re)}, "
         "negative real axis with im = -0 in {pi, -pi}; z^p = exp(p Log z), 0^p = 0 for p > 0; 0^p for p <= 0, negative real base with "
